@@ -44,6 +44,14 @@ Theorem C07_rangeAppendAll_pos_valid : forall f, wf f = true -> forall w, In w (
 Proof. exact (fun f W w H => cause_pos_valid f w W (rangeAppendAll_cause f w H)). Qed.
 Print Assumptions C07_rangeAppendAll_pos_valid.
 
+Theorem C07_truncateCmp_pos_valid : forall skip f, wf f = true -> forall w, In w (warnings (run_truncateCmp skip f)) -> In (w_pos w) (token_starts f).
+Proof. exact (fun skip f W w H => cause_pos_valid f w W (truncateCmp_cause skip f w H)). Qed.
+Print Assumptions C07_truncateCmp_pos_valid.
+
+Theorem C07_nilValReturn_pos_valid : forall f, wf f = true -> forall w, In w (warnings (run_nilValReturn f)) -> In (w_pos w) (token_starts f).
+Proof. exact (fun f W w H => cause_pos_valid f w W (nilValReturn_cause f w H)). Qed.
+Print Assumptions C07_nilValReturn_pos_valid.
+
 Theorem C07_badRegexp_entry_silent : forall f w, ~ In w (warnings (run_badRegexp_entry f)).
 Proof. exact (fun f w => regexp_entry_no_warnings badRegexp_names "badRegexp" f w). Qed.
 Print Assumptions C07_badRegexp_entry_silent.
